@@ -56,6 +56,9 @@ def run_case(rng, tier, case):
             case.feature('date_in_other_zone')
         I = d if rng.random() < 0.5 else d.to_pydatetime()
         steps = np.array([t for t in range(T) if pts[t] <= d])
+    if isinstance(I, np.ndarray) and rng.random() < 0.3:
+        I = [bool(v) for v in I] if I.dtype == bool else [int(v) for v in I]      # the window as a plain Python list (of booleans / of step numbers)
+        case.feature('window_as_list')
     same_prices = rng.random() < 0.5
     case.feature('window:' + wkind, 'same_prices' if same_prices else 'new_prices')
     case.key = env.spec_key([spec, wkind, [int(s) for s in steps], same_prices])
